@@ -18,7 +18,7 @@ var serveExplain = map[string]string{
 	"C11": "Structural necessary conditions of 'no state leaks between requests': (E7) every leaf field of Request, Response, RequestHeader, ResponseHeader, URI, Args, Cookie and RequestCtx is assigned (or known nil, or reset through its pointee) on every path of the type's reset method including callees, or is in a table of reasoned exemptions (scratch buffers, configuration, self pointers) - a newly added field is a violation until reset or exempted; (R-loop) every variable of the serve loop that survives an iteration is re-assigned before it is read in a later iteration on every path, or the loop provably ends; (R-reset) every path from the handler to the next iteration passes Request.Reset and Response.Reset; (R-ctx) every field of RequestCtx that a handler can set through an exported method and that the serve loop reads (hijack handler, no-response switch, timeout response) is cleared, found zero, or left behind with a replaced ctx on every path to the next request - neither Request.Reset nor Response.Reset touches them; (R-loop-owned, R-pool, R-scratch) the reasons given for exemptions are checked too: a field the serve loop owns is assigned by it before every handler dispatch, every field of a pooled helper object is assigned by its release or its acquire function, and no function uses the old content or length of a scratch buffer. (R-slot) a recycled entry of a key/value array (query args, cookies - the arrays are only truncated by Reset) has its key and value stored before it is kept, directly or by a scanner whose producing returns store them on every path. Not decided: that getters return exactly what the current request sent.",
 	"C14": "The sequence of ConnState values the serve loop reports, decided on every path of the loop as an automaton: StateActive only follows New/Idle, StateIdle only follows Active, the handler and the response write happen in Active, an iteration that continues ends in Idle, and StateActive is only reported on a path on which a read of at least one byte succeeded; (R3) every function that runs the serve loop itself and reports states (ServeConn) reports StateNew before serving and, on every path to its return after StateNew was reported (served or turned away), exactly one terminal state - StateHijacked exactly when the loop returned errHijacked, StateClosed otherwise. (R4) at every call of the ConnState hook the connection argument is the enclosing function's own parameter, or a value taken out of it only through embedded fields that are assigned solely while their owner is private (so it is one stable value for the connection's life): all reports for one connection carry one value. (R5) a pooled per-IP connection wrapper is returned to its pool only by a routine that is not one of its own methods, and every call of that routine is dominated by a report of StateClosed for the same value - the hook knows a connection by its value, which must not be reused before its previous life was reported closed. Not decided: the reports made by the worker pool (C13.R2 decides its terminal action) and cross-goroutine ordering.",
 	"C15": "Structural necessary conditions of graceful shutdown inside the serve loop, on every path: the per-connection idle marker is zero while the handler runs (so Shutdown's idle closer cannot close a busy connection), it is set non-zero after the response before the connection waits for the next request, the stop flag is tested after every response, and (R5) a response that was written into the connection writer is flushed before the writer is dropped whenever the serve function ends with a nil result (shutdown, client stopped sending) - so no answered request loses its response on a graceful end; (R6) in the shutdown code the Done channel is closed only under a false 'already closed' flag and the flag is raised after it, and wherever the channel reference is dropped the flag is lowered again on every path - otherwise the next Serve/Shutdown cycle of the same Server never closes its requests' Done channels; (E1) the open-connection counter Shutdown waits on is exact: ServeConn, serveConnCounted, serveConnCleanup and Serve each have the net effect on it that their contract states, on every path - a connection that is counted down twice lets Shutdown return nil while a handler is still running. (R7) ShutdownWithContext takes Server.mu before any of its returns (the listener list and the Done bookkeeping are touched under it). (R8) the idle marker is set only on paths on which the connection writer holds no unflushed response (a connection with a buffered response has its next pipelined request waiting and is not idle; R4 accepts the skipped marker on exactly those paths). (R9) every path of ShutdownWithContext to a return that is not the context's error - from its entry, not only from the drain loop - tested the Server.open counter itself against zero: not a view of it corrected by the number of running Serve calls, which is zero while Serve still accepts, and not 'there are no listeners', which says nothing about connections handed to ServeConn. Not decided: the rest of Shutdown's poll loop and listener handling, liveness, interleavings.",
-	"C16": "Structural necessary conditions for timed-out handlers, on every path of the serve loop's timeoutResponse != nil branch: the response is written from a freshly acquired ctx into which the stored response was copied (R1); the timed-out ctx is never released to the pool by the loop (R2); no per-request field the loop stored on the old ctx is read from the fresh one (R3); (R6) the concurrency slot a timeout wrapper takes from Server.concurrencyCh is taken without blocking (429 otherwise), and it is given back only by code that has run the wrapped handler to its end - in the goroutine that calls it, after the call - exactly once; never by the wrapper's own frame, which returns when the timeout fires while the handler still runs; the semaphore field is read only by code that creates the channel when it is missing (a nil channel would turn every call into a 429); (R7) every bookkeeping field the serve function keeps on the ctx (connection id, connection time, request number, request time) is assigned on every path from each point where the ctx object is acquired or replaced to the handler dispatch, so requests served after a timed-out one see them. (R8) no exported RequestCtx method writes to the connection (acquireWriter, or Write on the ctx's conn, through module callees) unless it does so under the ctx's timeout lock after having found timeoutResponse nil, and the timeout response is installed under that same lock - a timed-out handler keeps using its ctx, and after the timeout only the serve loop may write; (R9) initTimer, which re-arms the pooled timer of the timeout wrappers on every request, contains no explicit panic (Reset may report a just-stopped timer as active). Not decided: what the late handler does with the old ctx, scheduling.",
+	"C16": "Structural necessary conditions for timed-out handlers, on every path of the serve loop's timeoutResponse != nil branch: the response is written from a freshly acquired ctx into which the stored response was copied (R1); the timed-out ctx is never released to the pool by the loop (R2); no per-request field the loop stored on the old ctx is read from the fresh one (R3); (R6) the concurrency slot a timeout wrapper takes from Server.concurrencyCh is taken without blocking (429 otherwise), and it is given back only by code that has run the wrapped handler to its end - in the goroutine that calls it, after the call - exactly once; never by the wrapper's own frame, which returns when the timeout fires while the handler still runs; the semaphore field is read only by code that creates the channel when it is missing (a nil channel would turn every call into a 429); (R7) every bookkeeping field the serve function keeps on the ctx (connection id, connection time, request number, request time) is assigned on every path from each point where the ctx object is acquired or replaced to the handler dispatch, so requests served after a timed-out one see them. (R8) no exported RequestCtx method writes to the connection (acquireWriter, or Write on the ctx's conn, through module callees) unless it does so under the ctx's timeout lock after having found timeoutResponse nil, and the timeout response is installed under that same lock - a timed-out handler keeps using its ctx, and after the timeout only the serve loop may write; (R10) on the serve loop's 'handler timed out' branch the connection's per-IP wrapper is marked as abandoned, and every Put of such a wrapper into its pool is under a test that found the mark false - the late handler's ctx still refers to the wrapper; (R9) initTimer, which re-arms the pooled timer of the timeout wrappers on every request, contains no explicit panic (Reset may report a just-stopped timer as active). Not decided: what the late handler does with the old ctx, scheduling.",
 	"C17": "Structural necessary conditions of connection hijacking, on every path: the response is written and flushed before the hand-off unless HijackSetNoResponse is in effect (R1); after 'go hijackConnHandler' the serve function performs no I/O on the connection and releases neither ctx nor the handed-over reader (R3); it returns errHijacked exactly on hand-off paths (R4); hijackConnHandler closes the connection after the user's handler unless KeepHijackedConns and releases the ctx (R5); hijack state a handler put on the ctx without hijacking does not survive into a later request of the connection (R6); every method of the connection wrapper handed to the hijack handler takes data off the connection only through the buffered reader that still holds what the client sent with the hijacking request, never from the raw connection (R7); hijackConnHandler does not recycle the ctx while a connection the handler kept (KeepHijackedConns) still reads through it, which is the case under ReduceMemoryUsage, where the buffered reader reads through a field of the ctx (R8). (R9) every path into the hijack hand-off passes an unconditional SetDeadline(zero) on the connection after any deadline the serve function armed - per-request timeouts make every configuration test of 'is a deadline pending' wrong. (R10) from a report of StateHijacked for a connection value no path leads, before that variable receives its next connection, to a routine that returns a connection wrapper to its pool with the same value (ServeConn, the worker loop). Not decided: byte-exact hand-over of buffered data, callers' reaction to errHijacked.",
 }
 
@@ -51,6 +51,7 @@ func init() {
 				timeoutSemaphoreRule(p, r)
 				handlerCannotWriteConn(p, r)
 				timerReuseCannotPanic(p, r, "R9")
+				abandonedWrapperNotPooled(p, r)
 			}
 			if id == "C14" {
 				connStateCallersRule(p, r)
@@ -3340,4 +3341,96 @@ func movedStreamMarkedUnread(p *Prog, r *Report) {
 		})
 	}
 	r.Floor("R8", "routines that move their Request parameter's body into a copy", n, 1)
+}
+
+// abandonedWrapperNotPooled (C16.R10): the ctx a timed out handler keeps using refers to the connection value it was
+// served on. When that value is a pooled per-IP wrapper, recycling it hands the late handler another client's
+// connection (RemoteAddr of somebody else, Close of somebody else's connection). (a) On the serve loop's branch
+// 'the handler timed out' the connection is passed to a routine that raises a wrapper's 'abandoned' flag;
+// (b) every Put of a wrapper into its pool is made under a test that found that flag false.
+func abandonedWrapperNotPooled(p *Prog, r *Report) {
+	fn, _, header, why := findServeLoop(p)
+	if fn == nil {
+		r.Undecided("R10", "serve loop", why)
+		return
+	}
+	isWrapper := func(t types.Type) bool {
+		if pt, ok := t.Underlying().(*types.Pointer); ok {
+			t = pt.Elem()
+		}
+		st, ok := t.Underlying().(*types.Struct)
+		if !ok {
+			return false
+		}
+		for i := 0; i < st.NumFields(); i++ {
+			if strings.HasSuffix(st.Field(i).Type().String(), "*"+rootPkg+".perIPConnCounter") {
+				return true
+			}
+		}
+		return false
+	}
+	raisers := map[*ssa.Function]bool{}
+	for _, f := range p.funcsIn("") {
+		for _, b := range f.Blocks {
+			for _, in := range b.Instrs {
+				st, ok := in.(*ssa.Store)
+				if !ok {
+					continue
+				}
+				base, fv := fieldOfAddr(st.Addr)
+				if fv == nil || base == nil || !isWrapper(base.Type()) || !isBool(fv.Type()) {
+					continue
+				}
+				if c, isC := st.Val.(*ssa.Const); isC && c.Value != nil && c.Value.ExactString() == "true" && fv.Name() != "closed" {
+					raisers[f] = true
+				}
+			}
+		}
+	}
+	r.Floor("R10", "routines that mark a per-IP wrapper as abandoned", len(raisers), 1)
+	marked := 0
+	for _, b := range fn.Blocks {
+		if !inLoop(header, b) {
+			continue
+		}
+		for _, in := range b.Instrs {
+			c, ok := in.(ssa.CallInstruction)
+			if !ok || !raisers[c.Common().StaticCallee()] {
+				continue
+			}
+			for _, g := range guardsOf(b) {
+				if strings.Contains(g.Atom, "timeoutResponse") && g.Pol {
+					marked++
+				}
+			}
+		}
+	}
+	r.Check("R10", "serve loop: on the branch 'the handler timed out' the connection's wrapper is marked as abandoned", marked > 0, p.Pos(fn.Pos()),
+		"nothing on the timeoutResponse != nil branch keeps the connection's per-IP wrapper out of its pool: when the connection is closed the wrapper is recycled for the next accepted connection while the timed out handler's ctx still refers to it - ctx.RemoteAddr() there reports another client's address, ctx.Conn().Close() closes another client's connection")
+	nput := 0
+	for _, f := range p.funcsIn("") {
+		allCalls(f, func(b *ssa.BasicBlock, c ssa.CallInstruction) {
+			g := c.Common().StaticCallee()
+			if g == nil || g.Name() != "Put" || recvTypeName(g) != "Pool" || len(c.Common().Args) < 2 {
+				return
+			}
+			v := c.Common().Args[1]
+			if mi, ok := v.(*ssa.MakeInterface); ok {
+				v = mi.X
+			}
+			if !isWrapper(v.Type()) {
+				return
+			}
+			nput++
+			guarded := false
+			for _, gd := range guardsOf(b) {
+				if strings.Contains(gd.Atom, "abandoned") && !gd.Pol {
+					guarded = true
+				}
+			}
+			r.Check("R10", funcName(f)+": a per-IP wrapper goes back to its pool only when it was not abandoned to a timed out handler", guarded, p.Pos(c.Pos()),
+				"the Put is not under a test that found the wrapper's abandoned flag false")
+		})
+	}
+	r.Floor("R10", "places that return a per-IP wrapper to its pool", nput, 2)
 }
